@@ -85,7 +85,7 @@ theorem addressable_of_limit (kind : Kind) (idx : Nat) (h : idx < addrLimit kind
 /-- What holds between the calls of a session: the card is identified and settled, is still the
 card it was (kind, register, geometry, timing), checks CRCs exactly when the driver uses them,
 holds the abstract store, and has recorded no violation. -/
-structure SessInv (kind : Kind) (csd : List UInt8) (ncr nac busy : Nat) (st : Store) (s : St Card) : Prop where
+structure SessInv (kind : Kind) (csd : List UInt8) (ncr nac busy gap : Nat) (st : Store) (s : St Card) : Prop where
   settled : Settled s.bus
   kindEq : s.bus.kind = kind
   capEq : s.bus.capacity = capacityOfCsd csd
@@ -93,17 +93,18 @@ structure SessInv (kind : Kind) (csd : List UInt8) (ncr nac busy : Nat) (st : St
   ncrEq : s.bus.ncr = ncr
   nacEq : s.bus.nac = nac
   busyEq : s.bus.busy = busy
+  gapEq : s.bus.stopGap = gap
   crc : s.bus.crcOn = s.useCrc
   ct : s.cardType = some (typeOfKind kind)
   mem : ∀ j, getBlock s.bus j = st j
   viol : s.bus.violations = []
 
-theorem SessInv.step {kind : Kind} {csd : List UInt8} {ncr nac busy : Nat} {st st' : Store} {s s' : St Card}
-    (h : SessInv kind csd ncr nac busy st s) (o : Outcome s s') (hm : ∀ j, getBlock s'.bus j = st' j) :
-    SessInv kind csd ncr nac busy st' s' := by
-  obtain ⟨u1, u2, u3, u4, u5, u6, u7, u8⟩ := o.unchanged
+theorem SessInv.step {kind : Kind} {csd : List UInt8} {ncr nac busy gap : Nat} {st st' : Store} {s s' : St Card}
+    (h : SessInv kind csd ncr nac busy gap st s) (o : Outcome s s') (hm : ∀ j, getBlock s'.bus j = st' j) :
+    SessInv kind csd ncr nac busy gap st' s' := by
+  obtain ⟨u1, u2, u3, u4, u5, u6, u7, u8, u9⟩ := o.unchanged
   exact ⟨o.settled, u1.trans h.kindEq, u2.trans h.capEq, u3.trans h.csdEq, u4.trans h.ncrEq, u5.trans h.nacEq,
-    u6.trans h.busyEq, by rw [u7, o.useCrc]; exact h.crc, o.cardType.trans h.ct, hm, u8.trans h.viol⟩
+    u6.trans h.busyEq, u9.trans h.gapEq, by rw [u7, o.useCrc]; exact h.crc, o.cardType.trans h.ct, hm, u8.trans h.viol⟩
 
 /-! ### One call -/
 
@@ -153,19 +154,20 @@ theorem writeStore_single (st : Store) (idx : Nat) (b : Bytes) (j : Nat) :
 abstract store afterwards, the invariant again; the card is ready for the next command within
 the command budget — except after a multiple-block read, which leaves it busy for `busy` bytes
 (CMD12's R1b). -/
-theorem callOp_step (kind : Kind) (csd : List UInt8) (ncr nac busy : Nat)
+theorem callOp_step (kind : Kind) (csd : List UInt8) (ncr nac busy gap : Nat)
     (hncr : ncr ≤ DEFAULT_COMMAND_RETRIES) (hnac : nac ≤ DEFAULT_READ_RETRIES)
-    (hbusy : busy ≤ DEFAULT_WRITE_RETRIES) (st : Store) (hst : ∀ j, (st j).length = 512) (s : St Card)
-    (hI : SessInv kind csd ncr nac busy st s) (hbl : s.bus.busyLeft ≤ DEFAULT_COMMAND_RETRIES)
+    (hbusy : busy ≤ DEFAULT_WRITE_RETRIES) (hgap : gap ≤ 1) (st : Store) (hst : ∀ j, (st j).length = 512)
+    (s : St Card) (hI : SessInv kind csd ncr nac busy gap st s) (hbl : s.bus.busyLeft ≤ DEFAULT_COMMAND_RETRIES)
     (c : Call) (hc : Legal kind csd c) :
     ∃ s', callOp cardBus c s = (.ok (absCall kind csd st c).1, s') ∧
-      SessInv kind csd ncr nac busy (absCall kind csd st c).2 s' ∧
+      SessInv kind csd ncr nac busy gap (absCall kind csd st c).2 s' ∧
       (isMultiRead c = false → s'.bus.busyLeft ≤ DEFAULT_COMMAND_RETRIES) ∧
       (isMultiRead c = true → s'.bus.busyLeft = busy) ∧ s'.useCrc = s.useCrc := by
   have hS := hI.settled
   have hncr' : s.bus.ncr ≤ DEFAULT_COMMAND_RETRIES := by rw [hI.ncrEq]; exact hncr
   have hnac' : s.bus.nac ≤ DEFAULT_READ_RETRIES := by rw [hI.nacEq]; exact hnac
   have hbusy' : s.bus.busy ≤ DEFAULT_WRITE_RETRIES := by rw [hI.busyEq]; exact hbusy
+  have hgap' : s.bus.stopGap ≤ 1 := by rw [hI.gapEq]; exact hgap
   have hcrc : s.bus.crcOn = true → s.useCrc = true := fun h => by rw [← hI.crc]; exact h
   have hadr : ∀ i, i < addrLimit kind → Addressable s.cardType s.bus.kind i := fun i hi => by
     rw [hI.ct, hI.kindEq]; exact addressable_of_limit kind i hi
@@ -182,7 +184,8 @@ theorem callOp_step (kind : Kind) (csd : List UInt8) (ncr nac busy : Nat)
     · subst hn
       obtain ⟨s', h, hm, hb, o⟩ := read_single_sum s hS hbl hncr' hnac' idx (hadr idx h3)
         (by rw [hI.capEq]; exact h1) (hlen idx)
-      refine ⟨s', ?_, hI.step o (fun j => by rw [getBlock_congr hm]; exact hI.mem j), fun _ => by rw [hb]; exact Nat.zero_le _, fun h => (by simp [isMultiRead] at h), o.useCrc⟩
+      refine ⟨s', ?_, hI.step o (fun j => by rw [getBlock_congr hm]; exact hI.mem j),
+        fun _ => by rw [hb]; exact Nat.zero_le _, fun h => (by simp [isMultiRead] at h), o.useCrc⟩
       unfold callOp; dsimp only; rw [bind_ok h, hI.mem]; rfl
     · obtain ⟨s', h, hm, hb, o⟩ := read_multi_sum s hS hbl hncr' hnac' n idx hn (hadr idx h3)
         (by rw [hI.capEq]; exact h1) (by rw [hI.capEq]; exact h2) (fun j _ _ _ => hlen j)
@@ -197,13 +200,15 @@ theorem callOp_step (kind : Kind) (csd : List UInt8) (ncr nac busy : Nat)
         | [b], _ => exact ⟨b, rfl⟩
       obtain ⟨s', h, hm, hb, o⟩ := write_single_sum s hS hbl hncr' hbusy' hcrc idx (hadr idx h3)
         (by rw [hI.capEq]; exact h1) b (h5 b (List.mem_singleton.mpr rfl))
-      refine ⟨s', ?_, hI.step o (fun j => ?_), fun _ => by rw [hb]; exact Nat.zero_le _, fun h => (by simp [isMultiRead] at h), o.useCrc⟩
+      refine ⟨s', ?_, hI.step o (fun j => ?_), fun _ => by rw [hb]; exact Nat.zero_le _,
+        fun h => (by simp [isMultiRead] at h), o.useCrc⟩
       · unfold callOp; dsimp only; rw [bind_ok h]; rfl
       · show getBlock s'.bus j = writeStore st idx [b] j
         rw [getBlock_insert s.bus s'.bus idx b hm, writeStore_single, hI.mem]
-    · obtain ⟨s', h, hm, hb, o⟩ := write_multi_sum s hS hbl hncr' hbusy' hcrc blocks idx hn (hadr idx h3)
+    · obtain ⟨s', h, hm, hb, o⟩ := write_multi_sum s hS hbl hncr' hbusy' hgap' hcrc blocks idx hn (hadr idx h3)
         (by rw [hI.capEq]; exact h1) (by rw [hI.capEq]; exact h2) h5
-      refine ⟨s', ?_, hI.step o (fun j => ?_), fun _ => by rw [hb]; exact Nat.zero_le _, fun h => (by simp [isMultiRead] at h), o.useCrc⟩
+      refine ⟨s', ?_, hI.step o (fun j => ?_), fun _ => by rw [hb]; exact Nat.zero_le _,
+        fun h => (by simp [isMultiRead] at h), o.useCrc⟩
       · unfold callOp; dsimp only; rw [bind_ok h]; rfl
       · show getBlock s'.bus j = writeStore st idx blocks j
         rw [getBlock_writeMem s.bus s'.bus idx blocks hm, hI.mem]; rfl
